@@ -7,6 +7,7 @@ import traceback
 REGISTRY = {
     'C01': ('vf.checks.emis_check', lambda m: m.main('C01')),
     'C02': ('vf.checks.c02_check', lambda m: m.main()),
+    'C06': ('vf.checks.c06_check', lambda m: m.main()),
     'C11': ('vf.checks.emis_check', lambda m: m.main('C11')),
     'C15': ('vf.checks.c15_check', lambda m: m.main()),
     'C16': ('vf.checks.c16_check', lambda m: m.main()),
